@@ -868,38 +868,44 @@ Section Render.
       + apply inst_cons_intro; assumption.
   Qed.
 
+End Render.
+
+Section RenderNodes.
+  Variable sch : schema.
+  Hypothesis Hnames : names_safe sch = true.
+
   Definition node_json (n : node) : Prop :=
-    forall dst dot a a' out s c,
+    forall facts dst dot a a' out s c,
       arun_node sch facts dst n a = Some a' ->
       ok_val sch facts dst dot -> s_json dst = false -> safe_val dot = true ->
       exec_node sch n dot = Ok out -> inst out s -> sim c a ->
       exists c', json_run c s = Some c' /\ sim c' a'.
 
   Lemma seq_json : forall ns, Forall node_json ns ->
-    forall dst dot a a' out s c,
+    forall facts dst dot a a' out s c,
       seq_arun (arun_node sch facts dst) ns a = Some a' ->
       ok_val sch facts dst dot -> s_json dst = false -> safe_val dot = true ->
       seq_exec (exec_node sch) ns dot = Ok out -> inst out s -> sim c a ->
       exists c', json_run c s = Some c' /\ sim c' a'.
   Proof.
-    induction 1 as [|n r Hn Hr IH]; simpl; intros dst dot a a' out s c Ha Hok Hj Hd He Hi Hs.
+    induction 1 as [|n r Hn Hr IH]; simpl; intros facts dst dot a a' out s c Ha Hok Hj Hd He Hi Hs.
     - inversion Ha; inversion He; subst. inversion Hi; subst. simpl. eauto.
     - destruct (arun_node sch facts dst n a) as [a1|] eqn:E1; [|discriminate].
       apply bind_ok in He. destruct He as [o1 [Ho1 He]].
       apply bind_ok in He. destruct He as [o2 [Ho2 He]]. inversion He; subst out.
       destruct (inst_app _ _ _ Hi) as [s1 [s2 [-> [Hi1 Hi2]]]].
-      destruct (Hn _ _ _ _ _ _ _ E1 Hok Hj Hd Ho1 Hi1 Hs) as [c1 [Hc1 Hs1]].
+      destruct (Hn _ _ _ _ _ _ _ _ E1 Hok Hj Hd Ho1 Hi1 Hs) as [c1 [Hc1 Hs1]].
       rewrite json_run_app, Hc1. eapply IH; eauto.
   Qed.
 
-  Lemma loop_json : forall body dste l a out s c,
+  Lemma loop_json : forall facts body dste l a out s c,
     Forall node_json body ->
     seq_arun (arun_node sch facts dste) body a = Some a ->
     (forall x, In x l -> ok_val sch facts dste x /\ safe_val x = true) -> s_json dste = false ->
     loop_exec (seq_exec (exec_node sch) body) l = Ok out -> inst out s -> sim c a ->
     exists c', json_run c s = Some c' /\ sim c' a.
   Proof.
-    intros body dste l a out s c Hbody Hinv. revert out s c.
+    intros facts body dste l a out s c Hbody Hinv. revert out s c.
     induction l as [|x r IH]; intros out s c Hall Hj He Hi Hs.
     - simpl in He. inversion He; subst. inversion Hi; subst. simpl. eauto.
     - rewrite loop_exec_cons in He.
@@ -907,7 +913,7 @@ Section Render.
       apply bind_ok in He. destruct He as [o2 [Ho2 He]]. inversion He; subst out.
       destruct (inst_app _ _ _ Hi) as [s1 [s2 [-> [Hi1 Hi2]]]].
       destruct (Hall x (or_introl eq_refl)) as [Hokx Hsx].
-      destruct (seq_json body Hbody _ _ _ _ _ _ _ Hinv Hokx Hj Hsx Ho1 Hi1 Hs) as [c1 [Hc1 Hs1]].
+      destruct (seq_json body Hbody _ _ _ _ _ _ _ _ Hinv Hokx Hj Hsx Ho1 Hi1 Hs) as [c1 [Hc1 Hs1]].
       rewrite json_run_app, Hc1. eapply IH; eauto. intros y Hy. apply Hall. right; assumption.
   Qed.
 
@@ -915,34 +921,35 @@ Section Render.
   Proof.
     apply node_ind'; unfold node_json.
     - (* text *)
-      intros t dst dot a a' out s c Ha Hok Hj Hd He Hi Hs. simpl in Ha, He. inversion He; subst out.
+      intros t facts dst dot a a' out s c Ha Hok Hj Hd He Hi Hs. simpl in Ha, He. inversion He; subst out.
       destruct (inst_cons _ _ _ Hi) as [h [r [-> [Hh Hr]]]]. inversion Hr; subst. rewrite append_nil_r.
       inversion Hh; subst. inversion H2; subst. rewrite append_nil_r. eapply sim_run; eauto.
     - (* action *)
-      intros p dst dot a a' out s c Ha Hok Hj Hd He Hi Hs. simpl in Ha, He.
+      intros p facts dst dot a a' out s c Ha Hok Hj Hd He Hi Hs. simpl in Ha, He.
       destruct (pipe_safe p) eqn:Hps; [|discriminate].
       destruct (ty_pipe sch facts dst p) as [st|] eqn:Hp; [|discriminate].
       destruct (hole_of sch st) as [h|] eqn:Hh; [|discriminate].
       apply bind_ok in He. destruct He as [v [Hv He]]. inversion He; subst out.
       destruct (pipe_sound _ _ _ _ _ _ Hp Hok) as [v' [Hv' Hokv]].
       rewrite Hv in Hv'. inversion Hv'; subst v'.
-      pose proof (pipe_inv _ _ _ _ _ Hp Hv Hps Hj Hd) as Hinv.
-      pose proof (print_inst _ _ _ Hokv Hinv Hh _ Hi) as Hi'.
+      pose proof (pipe_inv sch facts Hnames _ _ _ _ _ Hp Hv Hps Hj Hd) as Hinv.
+      pose proof (print_inst sch facts Hnames _ _ _ Hokv Hinv Hh _ Hi) as Hi'.
       eapply piece_sound; eauto.
     - (* if *)
-      intros p th el Hth Hel dst dot a a' out s c Ha Hok Hj Hd He Hi Hs. simpl in Ha, He.
+      intros p th el Hth Hel facts dst dot a a' out s c Ha Hok Hj Hd He Hi Hs. simpl in Ha, He.
       destruct (ty_pipe sch facts dst p) as [st|] eqn:Hp; [|discriminate].
-      destruct (seq_arun (arun_node sch facts dst) th a) as [a1|] eqn:E1; [|discriminate].
+      match type of Ha with match ?x with _ => _ end = _ => destruct x as [a1|] eqn:E1 end; [|discriminate].
       destruct (seq_arun (arun_node sch facts dst) el a) as [a2|] eqn:E2; [|discriminate].
       apply bind_ok in He. destruct He as [v [Hv He]].
       apply bind_ok in He. destruct He as [b [Hb He]].
       destruct b.
-      + destruct (seq_json th Hth _ _ _ _ _ _ _ E1 Hok Hj Hd He Hi Hs) as [c1 [Hc1 Hs1]].
+      + pose proof (guard_ok _ _ _ _ _ _ Hok Hv Hb) as Hok'.
+        destruct (seq_json th Hth _ _ _ _ _ _ _ _ E1 Hok' Hj Hd He Hi Hs) as [c1 [Hc1 Hs1]].
         exists c1. split; [assumption|]. eapply sim_join; eauto.
-      + destruct (seq_json el Hel _ _ _ _ _ _ _ E2 Hok Hj Hd He Hi Hs) as [c1 [Hc1 Hs1]].
+      + destruct (seq_json el Hel _ _ _ _ _ _ _ _ E2 Hok Hj Hd He Hi Hs) as [c1 [Hc1 Hs1]].
         exists c1. split; [assumption|]. eapply sim_join; eauto.
     - (* range *)
-      intros p body el Hbody Hel dst dot a a' out s c Ha Hok Hj Hd He Hi Hs. simpl in Ha, He.
+      intros p body el Hbody Hel facts dst dot a a' out s c Ha Hok Hj Hd He Hi Hs. simpl in Ha, He.
       destruct (pipe_safe p) eqn:Hps; [|discriminate].
       destruct (ty_pipe sch facts dst p) as [[t pa j]|] eqn:Hp; [|discriminate].
       destruct t; try discriminate.
@@ -952,7 +959,7 @@ Section Render.
       apply bind_ok in He. destruct He as [v [Hv He]].
       destruct (pipe_sound _ _ _ _ _ _ Hp Hok) as [v' [Hv' Hokv]].
       rewrite Hv in Hv'. inversion Hv'; subst v'.
-      pose proof (pipe_inv _ _ _ _ _ Hp Hv Hps Hj Hd) as Hinv.
+      pose proof (pipe_inv sch facts Hnames _ _ _ _ _ Hp Hv Hps Hj Hd) as Hinv.
       assert (Hsafe : safe_val v = true).
       { unfold inv in Hinv. simpl in Hinv. destruct j; [|assumption]. subst v. destruct Hokv as [_ [Hx _]]. discriminate. }
       destruct Hokv as [Hwv [Htv Hsv]]. simpl in Htv, Hsv.
@@ -967,13 +974,32 @@ Section Render.
         - intros q Hq. destruct pa as [q0|]; simpl in Hq; [|discriminate]. inversion Hq; subst q.
           eapply elem_sat; eauto. }
       destruct l as [|x0 l0].
-      + destruct (seq_json el Hel _ _ _ _ _ _ _ E2 Hok Hj Hd He Hi Hs) as [c1 [Hc1 Hs1]].
+      + destruct (seq_json el Hel _ _ _ _ _ _ _ _ E2 Hok Hj Hd He Hi Hs) as [c1 [Hc1 Hs1]].
         exists c1. split; [assumption|]. eapply sim_join; eauto.
-      + destruct (loop_json body _ (x0 :: l0) a out s c Hbody E1 Hall eq_refl He Hi Hs) as [c1 [Hc1 Hs1]].
+      + destruct (loop_json facts body _ (x0 :: l0) a out s c Hbody E1 Hall eq_refl He Hi Hs) as [c1 [Hc1 Hs1]].
         exists c1. split; [assumption|]. eapply sim_join; eauto.
-    - intros w dst dot a a' out s c Ha. simpl in Ha. discriminate.
+    - (* with *)
+      intros p body el Hbody Hel facts dst dot a a' out s c Ha Hok Hj Hd He Hi Hs. simpl in Ha, He.
+      destruct (pipe_safe p) eqn:Hps; [|discriminate].
+      destruct (ty_pipe sch facts dst p) as [st|] eqn:Hp; [|discriminate].
+      destruct (s_json st) eqn:Hjs; [discriminate|].
+      match type of Ha with match ?x with _ => _ end = _ => destruct x as [a1|] eqn:E1 end; [|discriminate].
+      destruct (seq_arun (arun_node sch facts dst) el a) as [a2|] eqn:E2; [|discriminate].
+      apply bind_ok in He. destruct He as [v [Hv He]].
+      apply bind_ok in He. destruct He as [b [Hb He]].
+      destruct (pipe_sound _ _ _ _ _ _ Hp Hok) as [v' [Hv' Hokv]].
+      rewrite Hv in Hv'. inversion Hv'; subst v'.
+      pose proof (pipe_inv sch facts Hnames _ _ _ _ _ Hp Hv Hps Hj Hd) as Hinv.
+      unfold inv in Hinv. rewrite Hjs in Hinv.
+      destruct b.
+      + pose proof (with_ok _ _ _ _ Hokv Hb) as Hok'.
+        destruct (seq_json body Hbody _ _ _ _ _ _ _ _ E1 Hok' Hjs Hinv He Hi Hs) as [c1 [Hc1 Hs1]].
+        exists c1. split; [assumption|]. eapply sim_join; eauto.
+      + destruct (seq_json el Hel _ _ _ _ _ _ _ _ E2 Hok Hj Hd He Hi Hs) as [c1 [Hc1 Hs1]].
+        exists c1. split; [assumption|]. eapply sim_join; eauto.
+    - intros w facts dst dot a a' out s c Ha. simpl in Ha. discriminate.
   Qed.
-End Render.
+End RenderNodes.
 
 (* C20, last clause.  If the abstract run of a template over the JSON recogniser ends in an accepting state
    then whatever the template prints - for every value of the schema that satisfies the non-nil facts and whose
@@ -990,8 +1016,8 @@ Proof.
   destruct (seq_arun (arun_node sch facts (root_sty sch)) t init) as [a'|] eqn:E; [|discriminate].
   assert (Hok : ok_val sch facts (root_sty sch) d).
   { repeat split; simpl; auto. intros p Hp. inversion Hp; subst p. apply satisfies_sat; assumption. }
-  destruct (seq_json sch facts t (proj2 (Forall_forall _ _) (fun n _ => node_json_all sch facts Hn n))
-              _ _ _ _ _ _ init E Hok eq_refl Hsafe He Hi (sim_refl _)) as [c' [Hc Hs]].
+  destruct (seq_json sch t (proj2 (Forall_forall _ _) (fun n _ => node_json_all sch Hn n))
+              _ _ _ _ _ _ _ init E Hok eq_refl Hsafe He Hi (sim_refl _)) as [c' [Hc Hs]].
   unfold json_valid. rewrite Hc. eapply sim_accepting; eauto.
 Qed.
 
